@@ -558,10 +558,22 @@ func main() {
 		replay = flag.String("replay", "", "replay file")
 		list   = flag.Bool("list", false, "list properties")
 		race   = flag.Bool("c11race", false, "free-running race pass of C11 (race build only)")
+		dumpf  = flag.Bool("dumpflags", false, "list every command and flag with documented and actual default")
+		clitab = flag.Bool("clitable", false, "run every command line of the driver table once and print its outcome")
 	)
 	flag.Parse()
 	if *race {
 		c11raceMain()
+		return
+	}
+	if *dumpf {
+		for _, f := range c19flags() {
+			fmt.Printf("%-40s --%-22s %-12s def=%q actual=%q addr=%x\n", f.Cmd, f.Flag, f.Type, f.Def, f.Actual, f.addr)
+		}
+		return
+	}
+	if *clitab {
+		cliTableDump()
 		return
 	}
 	if *list {
